@@ -2,13 +2,16 @@
    Property theorems only; definitions are in Parse/Model.v, proofs in Parse/Proofs.v.
 
    Vocabulary (Parse/Model.v): a document is a list of statements over constants and
-   blank-node LABELS; [parse_call fr st d] is what one Graph.parse / Dataset.parse call does
-   to the quad set [st] of the store, [fr] being the supply of new blank-node ids of that
-   call (BNode() = uuid4); [run fresh 0 init ds] lists the store contents after each call;
-   [rdf_merge prev tgt stmts now]: [now] is [prev] plus the statements under ONE injective
-   map from the document's labels to blank nodes that occur nowhere in [prev];
+   blank-node LABELS; [parse_call fr e0 st d] is what one parse call does to the quad set [st]
+   of the store and to the label dict [e0] it works on ([] for Graph.parse, the long-lived dict
+   of a re-used parser object or of the caller's bnode_context= otherwise), [fr] being the
+   supply of new blank-node ids of that call (BNode() = uuid4); [run fresh 0 [] init ds] lists
+   (raised?, store content) after each call;
+   [rdf_merge known prev tgt stmts now]: [now] is [prev] plus the statements under ONE injective
+   map from the document's labels to nodes: the known node for a label the caller fixed
+   (shared dict, preserve_bnode_ids), otherwise a blank node that occurs nowhere in [prev];
    [supply_ok fresh]: the supply never repeats and stays clear of ids in use. *)
-From RV Require Import Parse.Model Parse.Proofs.
+From RV Require Import Parse.Model Parse.Proofs Parse.Machines Parse.MachineProofs.
 
 (* The tie between model and checker: on every well-formed case on which no known-finding
    trigger fires, the specification checker accepts what the model computes. *)
@@ -20,45 +23,49 @@ Print Assumptions C12_spec_ok_model.
    implementation's): every call only added, and each new content is the RDF merge of the
    previous content and the document. *)
 Theorem C12_checker_reading : forall c obs,
-  spec_ok c obs = true -> merges (c_init c) (c_docs c) obs.
+  spec_ok c obs = true -> merges [] (c_init c) 0 (c_docs c) obs.
 Proof. intros c obs. apply spec_run_sound. Qed.
 Print Assumptions C12_checker_reading.
 
-Theorem C12_checker_step_reading : forall prev now j d,
-  merge_ok prev now j d = true ->
-  incl prev now /\ rdf_merge prev (d_target d) (d_stmts d) now.
+Theorem C12_checker_step_reading : forall known prev now j d,
+  merge_ok known prev now j d = true ->
+  incl prev now /\ rdf_merge known prev (d_target d) (d_stmts d) now.
 Proof. exact merge_ok_sound. Qed.
 Print Assumptions C12_checker_step_reading.
 
 (* ... and the checker is complete on tagged documents: an RDF merge of a store that holds no
    tag triple of call j with a well-formed document of call j is accepted. *)
-Theorem C12_checker_step_complete : forall prev now j d g,
+Theorem C12_checker_step_complete : forall known prev now j d g,
   (forall q, In q now <-> In q prev \/ In q (map (sub_stmt g (d_target d)) (d_stmts d))) ->
   doc_ok j d = true ->
   (forall q, In q prev -> q_p q = TAGP -> forall l, (l < LB)%N -> q_o q <> tag j l) ->
   (forall l l', In l (labels_of (d_stmts d)) -> In l' (labels_of (d_stmts d)) -> g l = g l' -> l = l') ->
-  (forall l, In l (labels_of (d_stmts d)) -> is_bnode (g l) = true /\ occurs_in (g l) prev = false) ->
-  merge_ok prev now j d = true.
+  (forall l, In l (labels_of (d_stmts d)) ->
+     match env_get known l with
+     | Some n => g l = n
+     | None => is_bnode (g l) = true /\ occurs_in (g l) prev = false
+     end) ->
+  merge_ok known prev now j d = true.
 Proof. exact merge_ok_intro. Qed.
 Print Assumptions C12_checker_step_complete.
 
 (* Parsing only adds: no quad of any graph is lost or changed by a parse call - for every
    syntax, every label discipline and every supply. *)
-Theorem C12_only_adds : forall fr st d, incl st (parse_call fr st d).
+Theorem C12_only_adds : forall fr e0 st d, incl st (snd (parse_call fr e0 st d)).
 Proof. exact parse_call_incl. Qed.
 Print Assumptions C12_only_adds.
 
 (* ... hence over a whole sequence of calls, without any side condition *)
-Theorem C12_only_adds_run : forall fresh ds j st now,
-  In now (run fresh j st ds) -> incl st now.
+Theorem C12_only_adds_run : forall fresh ds j es st o,
+  In o (run fresh j es st ds) -> incl st (snd o).
 Proof. exact run_incl. Qed.
 Print Assumptions C12_only_adds_run.
 
 (* One call is one substitution: whatever the discipline, a label denotes ONE node in all
    statements and all named graphs of the document. *)
-Theorem C12_one_node_per_label : forall fr st d q,
-  In q (parse_call fr st d) <->
-  In q st \/ In q (map (sub_stmt (node_fn fr (disc_of (d_fmt d))) (d_target d)) (d_stmts d)).
+Theorem C12_one_node_per_label : forall fr e0 st d q,
+  In q (snd (parse_call fr e0 st d)) <->
+  In q st \/ In q (map (sub_stmt (node_fn fr (call_disc d) e0) (d_target d)) (d_stmts d)).
 Proof. exact parse_call_In. Qed.
 Print Assumptions C12_one_node_per_label.
 
@@ -66,8 +73,8 @@ Print Assumptions C12_one_node_per_label.
    content and the document (any supply that never repeats). *)
 Theorem C12_merge : forall fresh init ds,
   supply_ok fresh -> forallb quad_small init = true -> docs_ok 0 ds = true ->
-  kf_run fresh 0 init ds = 0%N ->
-  merges init ds (run fresh 0 init ds).
+  kf_run fresh 0 [] init ds = 0%N ->
+  merges [] init 0 ds (run fresh 0 [] init ds).
 Proof. exact run_merges. Qed.
 Print Assumptions C12_merge.
 
@@ -76,8 +83,9 @@ Print Assumptions C12_merge.
    labels to nodes is one injective function. *)
 Theorem C12_labels_scoped : forall fresh init ds,
   supply_ok fresh -> forallb quad_small init = true -> docs_ok 0 ds = true ->
-  kf_run fresh 0 init ds = 0%N ->
-  scoped [] init ds (run fresh 0 init ds).
+  forallb private ds = true ->
+  kf_run fresh 0 [] init ds = 0%N ->
+  scoped [] init ds (run fresh 0 [] init ds).
 Proof. exact run_scoped. Qed.
 Print Assumptions C12_labels_scoped.
 
@@ -89,7 +97,7 @@ Theorem C12_same_doc_iso : forall (fr1 fr2 : N -> N) j d,
   (forall l, (1000 <= fr1 l)%N /\ N.even (fr1 l) = true) ->
   (forall l, (1000 <= fr2 l)%N /\ N.even (fr2 l) = true) ->
   doc_ok j d = true ->
-  exists h, iso_by h (parse_call fr1 [] d) (parse_call fr2 [] d).
+  exists h, iso_by h (snd (parse_call fr1 [] [] d)) (snd (parse_call fr2 [] [] d)).
 Proof. exact same_doc_iso. Qed.
 Print Assumptions C12_same_doc_iso.
 
@@ -98,8 +106,8 @@ Print Assumptions C12_same_doc_iso.
    label share the node. *)
 Theorem C12_labels_scoped_refuted :
   exists c, wf c /\ kf c = 1%N /\ spec_ok c (model_obs c) = false /\
-    exists n, q_mem ((n, TAGP, tag 0 0), 0%N) (last (model_obs c) []) = true
-           /\ q_mem ((n, TAGP, tag 1 0), 1%N) (last (model_obs c) []) = true.
+    exists n, q_mem ((n, TAGP, tag 0 0), 0%N) (final (model_obs c)) = true
+           /\ q_mem ((n, TAGP, tag 1 0), 1%N) (final (model_obs c)) = true.
 Proof. exists w_f9. exact f9_witness. Qed.
 Print Assumptions C12_labels_scoped_refuted.
 
@@ -119,7 +127,7 @@ Print Assumptions C12_trix_is_fresh.
    ([parse_call_prefix]: N-Quads / HexTuples emptied <urn:x-rdflib:default>) lost a quad that
    the repaired code keeps; the old witness is now in scope of the theorem and accepted. *)
 Theorem C12_prefix_only_adds_refuted :
-  exists fr st d q, In q st /\ ~ In q (parse_call_prefix fr st d) /\ In q (parse_call fr st d).
+  exists fr st d q, In q st /\ ~ In q (snd (parse_call_prefix fr [] st d)) /\ In q (snd (parse_call fr [] st d)).
 Proof. exact f12_prefix_witness. Qed.
 Print Assumptions C12_prefix_only_adds_refuted.
 
@@ -132,6 +140,123 @@ Print Assumptions C12_f12_witness_now_passes.
 Theorem C12_std_supply_ok : supply_ok std_fresh.
 Proof. exact std_supply_ok. Qed.
 Print Assumptions C12_std_supply_ok.
+
+(* ================= round 3: dicts that outlive a call, failing calls, the same document twice ====== *)
+
+(* The label dict a call leaves behind (the parser object's _bnode_ids, or the caller's
+   bnode_context): what it had, plus label |-> new node for the labels of the document. *)
+Theorem C12_dict_after_call : forall fr e0 st d l,
+  env_get (fst (parse_call fr e0 st d)) l =
+  match call_disc d with
+  | Identity => env_get e0 l
+  | Fresh => match env_get e0 l with
+             | Some n => Some n
+             | None => if memb N.eqb l (labels_of (d_stmts d)) then Some (fr l) else None
+             end
+  end.
+Proof. exact parse_call_env. Qed.
+Print Assumptions C12_dict_after_call.
+
+(* Failure atomicity, as far as it holds: a call that raises after k statements ([cut k d]; the
+   parsers stream into the graph) keeps everything that was there, and what it added is part of
+   what the complete document would have added, under the same label map - there is no
+   rollback, and nothing else. *)
+Theorem C12_failure_atomicity : forall fr e0 st d k,
+  incl st (snd (parse_call fr e0 st (cut k d))) /\
+  incl (snd (parse_call fr e0 st (cut k d))) (snd (parse_call fr e0 st d)).
+Proof. exact failure_atomicity. Qed.
+Print Assumptions C12_failure_atomicity.
+
+Theorem C12_failed_call_content : forall fr e0 st d k q,
+  In q (snd (parse_call fr e0 st (cut k d))) <->
+  In q st \/ In q (map (sub_stmt (node_fn fr (call_disc d) e0) (d_target d)) (firstn k (d_stmts d))).
+Proof. exact cut_In. Qed.
+Print Assumptions C12_failed_call_content.
+
+Theorem C12_failed_call_dict : forall fr e0 st d k l n,
+  env_get (fst (parse_call fr e0 st (cut k d))) l = Some n ->
+  env_get e0 l = Some n \/
+  (env_get e0 l = None /\ n = fr l /\ In l (labels_of (firstn k (d_stmts d)))).
+Proof. exact cut_env. Qed.
+Print Assumptions C12_failed_call_dict.
+
+(* The same document twice - into one graph, or into two graphs of one dataset ([retarget]) -
+   gives two copies whose blank nodes are disjoint. *)
+Theorem C12_same_doc_twice : forall fresh j1 j2 st d t2,
+  supply_ok fresh -> j1 <> j2 -> call_disc d = Fresh ->
+  let st1 := snd (parse_call (fresh j1) [] st d) in
+  let st2 := snd (parse_call (fresh j2) [] st1 (retarget t2 d)) in
+  (forall q, In q st2 <->
+     In q st \/ In q (map (sub_stmt (fresh j1) (d_target d)) (d_stmts d))
+             \/ In q (map (sub_stmt (fresh j2) t2) (d_stmts d))) /\
+  (forall l l', (l < LB)%N -> (l' < LB)%N -> fresh j1 l <> fresh j2 l').
+Proof. exact same_doc_twice. Qed.
+Print Assumptions C12_same_doc_twice.
+
+(* ================= round 3: the parsers' tables as state machines with an explicit supply ========= *)
+(* Parse/Machines.v: uuid4 draws are counted process-wide; AUuid (N-Triples, N-Quads, RDF/XML, TriX)
+   draws one per table miss, ASink (Turtle, TriG) one per parse call plus a per-call counter, AKeep
+   (HexTuples, JSON-LD, preserve_bnode_ids) none.  [nid uuid counter] is the id; distinct pairs give
+   distinct ids (hypothesis).  [OldE B e0]: the table the call starts with is injective and holds
+   ids drawn before the B-th uuid4. *)
+
+(* One call of any machine: equal labels give one node in all statements and graphs; the table
+   keeps what it had; different labels have different nodes; a label the table did not have gets an
+   id never drawn before the call. *)
+Theorem C12_machine_call : forall nid : N -> N -> N,
+  (forall s c s' c', nid s c = nid s' c' -> s = s' /\ c = c') ->
+  forall a B e0 tgt st stmts m' st',
+  OldE nid B e0 ->
+  m_stmts nid a tgt (m_open a e0 B) st stmts = (m', st') ->
+  (forall q, In q st' <-> In q st \/ In q (map (sub_stmt (m_node a m') tgt) stmts)) /\
+  (forall l n, env_get e0 l = Some n -> env_get (m_env m') l = Some n) /\
+  env_inj (m_env m') /\
+  (forall l n, env_get (m_env m') l = Some n -> env_get e0 l = None ->
+     ~ drawn_before nid B n /\ drawn_before nid (m_next m') n) /\
+  (B <= m_next m')%N.
+Proof. exact machine_call. Qed.
+Print Assumptions C12_machine_call.
+
+(* Across calls - any mix of syntaxes, parser objects re-used or not, dicts shared or not: the
+   node a call makes for a label its table did not have occurs nowhere in the store as it was and
+   in no long-lived dict; the invariant [GInv] (every made node in the store or in a dict was
+   drawn before now) is kept, so this holds for every call of every sequence. *)
+Theorem C12_machine_step : forall nid : N -> N -> N,
+  (forall s c s' c', nid s c = nid s' c' -> s = s' /\ c = c') ->
+  (forall s c, (1000 <= nid s c)%N /\ N.even (nid s c) = true) ->
+  forall g d j,
+  GInv nid g -> doc_ok j d = true ->
+  let a := alloc_of d in
+  let e0 := start_env (g_envs g) d in
+  let g' := m_call nid g d in
+  exists m',
+    (forall q, In q (g_store g') <->
+       In q (g_store g) \/ In q (map (sub_stmt (m_node a m') (d_target d)) (d_stmts d))) /\
+    (forall l n, env_get (m_env m') l = Some n -> env_get e0 l = None ->
+       (forall q, In q (g_store g) -> occurs n q = false) /\
+       (forall k l', env_get (envs_get (g_envs g) k) l' <> Some n)) /\
+    env_inj (m_env m') /\ GInv nid g'.
+Proof. exact machine_step. Qed.
+Print Assumptions C12_machine_step.
+
+Theorem C12_machine_run : forall nid : N -> N -> N,
+  (forall s c s' c', nid s c = nid s' c' -> s = s' /\ c = c') ->
+  (forall s c, (1000 <= nid s c)%N /\ N.even (nid s c) = true) ->
+  forall ds j init next,
+  forallb quad_small init = true -> docs_ok j ds = true ->
+  Forall (GInv nid) (m_run nid {| g_store := init; g_next := next; g_envs := [] |} ds).
+Proof.
+  intros nid Hi Hr ds j init next Hq Hd. apply (machine_run nid Hi Hr ds j); auto.
+  now apply GInv_init.
+Qed.
+Print Assumptions C12_machine_run.
+
+(* the hypotheses on the id function are satisfiable (the instance the "machines" suite runs) *)
+Theorem C12_std_nid_ok :
+  (forall s c s' c', std_nid s c = std_nid s' c' -> s = s' /\ c = c') /\
+  (forall s c, (1000 <= std_nid s c)%N /\ N.even (std_nid s c) = true).
+Proof. exact std_nid_ok. Qed.
+Print Assumptions C12_std_nid_ok.
 
 Example C12_nonvacuous :
   wf w_ok /\ kf w_ok = 0%N /\ length (model_obs w_ok) = 3%nat /\ spec_ok w_ok (model_obs w_ok) = true.
